@@ -551,6 +551,10 @@ func c02Case(w *core.Worker, i int) {
 	}
 	// path 2: CREATE TABLE AS + COMMIT
 	newFile := "created." + d.ext()
+	if i%5 == 2 {
+		// the extension names the format whatever its letter case: what CREATE TABLE writes is what a later run reads
+		newFile = []string{"CREATED." + strings.ToUpper(d.ext()), "Created." + strings.Title(d.ext()), "created." + strings.ToUpper(d.ext())}[(i/5)%3]
+	}
 	if d.Format == "FIXED" {
 		// CREATE TABLE derives the format from the extension and cannot create fixed-length files
 		if i < 30 {
